@@ -342,7 +342,9 @@ def handler(case, payload):
         try:
             k = op[0]
             if k == 'input':
-                b.add_input(utxos[op[1]])
+                # a plain registration hands over ANOTHER, equal object (the same UTxO fetched by a second chain query)
+                import copy as _copy
+                b.add_input(_copy.deepcopy(utxos[op[1]]) if case.get('distinct_objects') else utxos[op[1]])
             elif k == 'sinput':
                 r = mk_rdm(op[4])
                 if r is not None:
